@@ -6,6 +6,7 @@ from concurrent.futures import ThreadPoolExecutor
 
 import c1219_lib as L
 import engine
+import json_lib
 import gen
 import vcommon
 from ovnitrace import Scratch, Stream, ev_bytes, i32, run_emu, u32, u64, verdict, write_trace
@@ -298,13 +299,17 @@ def check(res, tier, replay=None):
                        "payload sizes, non-jumbo after jumbo); each run through the real `ovniemu -l` (oracle: exit != 0 "
                        "and no 'emulation finished ok'); stream-layer corruptions also through the real stream.c "
                        "(ASan harness, exact-size heap buffer) and the Lean cursor (exact step/offset/verdict diff); "
-                       "metadata corruptions also through the Lean metadata gates. non-trivial = ovniemu got past "
+                       "metadata corruptions also through the Lean metadata gates, fed by the Lean parson model from the raw "
+                       "stream.json bytes (Python's json as cross-check); the parson model itself against the real parson.c "
+                       "(json_lib: documents, getters, dotset, serialization, every truncation, byte mutations). non-trivial = ovniemu got past "
                        "argument parsing and opened the trace")
-    res.assumptions = ["parson parses JSON as Python's json module does for the generated documents (modelled getters)",
+    res.assumptions = ["parson = lean/OvniModel/Json.lean (Props/Json: round trip, truncation, getter laws, totality); tied to the "
+                       "real src/parson.c by the correspondence of checks/json_lib.py in this run (generator-bounded); numbers "
+                       "whose value the model does not compute (non-dyadic decimals, beyond 2^53) are compared on grammar only",
                        "memory beyond the stream file reads as zero in the model driver (mmap page tail); the theorems "
                        "quantify over arbitrary contents"]
-    prep = engine.prepare(res, asan=True, drivers=("drv_stream",))
-    proved = vcommon.prove(res, "C12")
+    prep = engine.prepare(res, asan=True, drivers=("drv_stream", "drv_json"))
+    proved = vcommon.prove(res, ["C12", "Json"])
     found = False
     _viol = res.violation
     seen_keys = {}
@@ -321,6 +326,15 @@ def check(res, tier, replay=None):
         r = vcommon.rng("c12")
         tabs = gen.load_tables()
         harness = L.stream_harness(prep)
+        # ---- the metadata layer below the gates: the parson model against the real parson.c
+        jreplay = [l[len("jsonline "):].strip() for l in open(replay) if l.startswith("jsonline ")] if replay else None
+        if not replay or jreplay:
+            for f in json_lib.run_json_correspondence(res, prep, tier, vcommon.rng("c12-json"), jreplay):
+                if f["kind"] == "oracle":
+                    found = True
+                    res.violation(f["key"], f["text"], f["replay"])
+                else:
+                    res.cov.setdefault("correspondence_breaks", []).append({"what": f["text"][:600], "script": f["replay"][:1500]})
         cases = load_replay(replay) if replay else all_cases(r, tier, tabs, res)
         with Scratch("c12") as d:
             # ---- the real ovniemu on every case
@@ -363,22 +377,36 @@ def check(res, tier, replay=None):
                                   "happen to make the event not fit", l + "\n" + c.replay_text())
             # ---- metadata gates: ovniemu vs the Lean decision logic
             ml = [c for c in cases if c.meta]
-            mlines = []
+            mlines, jlines = [], []
+            cast = "1" if L.version_is_cast() else "0"
             for c in ml:
                 toks = []
                 for s, evs in c.tr.streams:
                     toks += L.meta_tokens(s.json_text(), tabs, L.simple_compat)
                 evm = sorted({ord(e.mcv[0]) for s, evs in c.tr.streams for e in evs})
                 mlines.append("meta %d %s %s" % (len(c.tr.streams), " ".join(toks), ",".join(map(str, evm)) or "-"))
+                # the same decision from the raw bytes of every stream.json: parsed and read by the Lean parson model
+                jlines.append("metaj %s %d %s %s" % (cast, len(c.tr.streams),
+                                                     " ".join(s.json_text().encode("utf-8").hex() or "-" for s, _ in c.tr.streams),
+                                                     ",".join(map(str, evm)) or "-"))
             _, mmodel, _ = engine.run_lines(engine.exe("drv_stream"), mlines)
-            for c, l, b in zip(ml, mlines, mmodel + ["<missing>"] * len(mlines)):
+            _, jmodel, _ = engine.run_lines(engine.exe("drv_stream"), jlines)
+            for c, l, jl, b0, bj in zip(ml, mlines, jlines, mmodel + ["<missing>"] * len(mlines), jmodel + ["<missing>"] * len(mlines)):
+                # primary: the Lean JSON path; Python's json module (the former stand-in for parson) is kept as a cross-check
+                # and as the fall-back where a number of the document has no modelled value
+                b = b0 if bj == "meta unsup" else bj
+                res.dist("meta-source:" + ("python-json-fallback" if bj == "meta unsup" else "lean-json"))
+                if bj != "meta unsup" and bj != b0:
+                    res.cov.setdefault("correspondence_breaks", []).append(
+                        {"what": f"metadata gates from the Lean parson model say '{bj}', from Python's json '{b0}' ({c.label})",
+                         "script": jl[:1200] + "\n" + l[:600]})
                 want = "ok" if b == "meta ok" else "reject"
                 res.dist("meta-model:" + (b.split()[-1] if b.startswith("meta reject") else b))
                 if c.verdict in ("ok", "reject") and c.verdict != want:
                     found = True
                     res.violation("meta-corr:" + c.label.split(" ", 1)[-1][:60],
                                   f"ovniemu verdict {c.verdict}, Lean metadata gates say '{b}' ({c.label})",
-                                  l + "\n" + c.replay_text() + "\n" + c.err[-1500:])
+                                  jl + "\n" + l + "\n" + c.replay_text() + "\n" + c.err[-1500:])
             # ---- the property oracle on every case
             shown = {}
             for c in cases:
@@ -411,6 +439,9 @@ def check(res, tier, replay=None):
                         f"crash:ovniemu:{c.verdict}:{c.cls}"
                     res.violation(key, f"ovniemu did not exit cleanly: {c.verdict} ({c.cls}: {c.label})",
                                   c.replay_text() + "\n" + c.err[-1500:])
+    for b in res.cov.get("correspondence_breaks", [])[:3]:
+        proved = False
+        res.failed_obligations = getattr(res, "failed_obligations", []) + ["correspondence json: " + b["what"] + " on: " + b["script"]]
     for pr in prep.problems:
         res.failed_obligations = getattr(res, "failed_obligations", []) + [pr]
         proved = False
